@@ -38,6 +38,25 @@ def fn_constants(f):
     return out
 
 
+def _mk_keyof(f, pid, env):
+    """key of an integer the interval environment tracks: the shift amount parameter or a once-initialised local, also when it
+    is named through the parameter of a folded helper (move_words_up(wshift): the helper's `wshift` is the caller's)"""
+    bm = f.bind_map()
+
+    def keyof(x):
+        x = x.strip()
+        hops = 0
+        while x.kind == "DeclRefExpr" and x.d.get("d") in bm and hops < 8:
+            y = std_unwrap(f.node(bm[x.d["d"]]))
+            if y.kind != "DeclRefExpr":
+                break
+            x, hops = y, hops + 1
+        if x.kind == "DeclRefExpr" and (x.d["d"] == pid or x.d["d"] in env["__inits__"]):
+            return x.d["d"]
+        return None
+    return keyof
+
+
 def check_C18(ctx, unit, nbits):
     tag = " [N=%d]" % nbits
     BS = "frg::bitset"
@@ -45,6 +64,7 @@ def check_C18(ctx, unit, nbits):
     check_const_subscripts(ctx, unit, ["frg::array"], rule="B1.const-subscript")
     # ... and of the bitset's word buffer, in every instantiated size (N / 64, buffer_size - 1 are constants there)
     check_const_subscripts(ctx, unit, [BS], rule="B1.const-subscript")
+    ctx.rule("I.word-count", "bitset<N> stores exactly ceil(N / 64) words (decided on the record layout of each instantiated size)", 1)
     ctx.rule("I.bitset-ctor", "every bitset constructor writes every word of the buffer, and one that stores a caller value "
              "masks the bits at and beyond N afterwards", 2)
     ctx.rule("I.mask-after-dirty-write", "every bitset member that writes a word with ~x, x << k or a caller value calls "
@@ -72,6 +92,11 @@ def check_C18(ctx, unit, nbits):
                 ext = int(fl["extent"])
         if ext is None:
             raise AnalysisBroken("anchor vanished: bitset::buffer")
+        # exactly ceil(N / 64) words: a word more is a word that no mask ever clears and that count()/==/>>= read
+        ctx.inst("I.word-count", "%s: extent of the word buffer" % rec["qn"], ext == (nbits + 63) // 64, rec.get("loc", ""),
+                 "%d words for %d bits (ceil(N / 64) = %d)%s" % (ext, nbits, (nbits + 63) // 64,
+                                                                "" if ext == (nbits + 63) // 64 else
+                                                                ": the surplus word lies wholly at or beyond bit N and is never masked"), None)
         masks = [f for f in fns if f.name == "mask_last_bit"]
         mask_did = {m.did for m in masks}       # may be empty: the masking statement can be spelled out in place
         last_word = nbits // 64
@@ -123,8 +148,49 @@ def check_C18(ctx, unit, nbits):
                     elif ls.kind == "UnaryOperator" and ls.op == "*":
                         q = ls.children[0].strip()
                         if q.kind == "DeclRefExpr" and q.d["d"] in refs:
-                            out.append((n, "[ptr]", n.children[1], n.op))
+                            rng = ptr_range(f, n, q.d["d"], inits)
+                            if rng is None:
+                                out.append((n, "[ptr]", n.children[1], n.op))
+                            else:
+                                for k_ in range(rng[0], min(rng[1], rng[0] + 4096)):
+                                    out.append((n, "[%d]" % k_, n.children[1], n.op))
             return out
+
+        def ptr_range(f, wr, qd, inits):
+            """`for(p = buffer + A; p < buffer + B; p++) *p = v` with A and B constant (possibly parameters of a folded helper
+            bound to constants): the words [A, B) are written"""
+            def off(e):
+                e = std_unwrap(e)
+                if e.kind == "DeclRefExpr" and e.d.get("d") in f.bind_map():
+                    e = std_unwrap(f.node(f.bind_map()[e.d["d"]]))
+                pe = path(e)
+                if pe and len(pe) == 2 and pe[0] == "this" and e.kind in ("MemberExpr", "ImplicitCastExpr", "DeclRefExpr"):
+                    return 0
+                if e.kind == "ImplicitCastExpr" and e.children:
+                    return off(e.children[0])
+                if e.kind == "BinaryOperator" and e.op == "+":
+                    for a_, b_ in ((e.children[0], e.children[1]), (e.children[1], e.children[0])):
+                        if off(a_) == 0:
+                            return flow.const_fold(f, b_)
+                return None
+            ini = inits.get(qd)
+            if ini is None:
+                return None
+            a = off(ini)
+            if a is None:
+                return None
+            for lp in flow.natural_loops(f):
+                if not lp.contains(wr) or lp.cond is None:
+                    continue
+                rel = flow.fact_relation(lp.cond, True)
+                if rel is None or rel[1] not in ("<", "!="):
+                    continue
+                l_ = std_unwrap(rel[0])
+                if l_.kind == "DeclRefExpr" and l_.d.get("d") == qd:
+                    b = off(rel[2])
+                    if b is not None and b >= a:
+                        return (a, b)
+            return None
 
         def dirty(f, rhs, op):
             pids = {p["d"] for p in f.params()}
@@ -204,6 +270,11 @@ def check_C18(ctx, unit, nbits):
                     if did not in tainted and any(x.kind == "DeclRefExpr" and x.d["d"] in tainted for x in init.walk()):
                         tainted.add(did)
                         grew = True
+                # parameters of folded helpers (move_words_up(wshift)) carry what they are bound to
+                for did, a_ in f.bind_map().items():
+                    if did not in tainted and any(x.kind == "DeclRefExpr" and x.d.get("d") in tainted for x in f.node(a_).walk()):
+                        tainted.add(did)
+                        grew = True
             # loop variables whose bounds are tainted
             for blk in f.blocks.values():
                 if blk.termkind == "ForStmt" and blk.cond is not None:
@@ -255,7 +326,7 @@ def check_C18(ctx, unit, nbits):
             bad = []
             for n in subs:
                 env = {"__inits__": {d: i for d, i in inits.items() if not RA._reassigned(f, d) and (i.get("bits") or i.strip().get("bits"))}}
-                keyof = lambda x: (x.strip().d["d"] if x.strip().kind == "DeclRefExpr" and (x.strip().d["d"] == pid or x.strip().d["d"] in env["__inits__"]) else None)
+                keyof = _mk_keyof(f, pid, env)
                 rel = None
                 for cond, truth in flow.facts_at(f, n.id):
                     env = RB.refine_env(env, cond, truth, keyof)
@@ -291,7 +362,7 @@ def check_C18(ctx, unit, nbits):
             for n in decs:
                 iv_ = n.children[0].strip()
                 env = {"__inits__": {d: i for d, i in inits.items() if not RA._reassigned(f, d) and (i.get("bits") or i.strip().get("bits"))}}
-                keyof = lambda x: (x.strip().d["d"] if x.strip().kind == "DeclRefExpr" and (x.strip().d["d"] == pid or x.strip().d["d"] in env["__inits__"]) else None)
+                keyof = _mk_keyof(f, pid, env)
                 facts = flow.facts_at(f, n.id)
                 for cond, truth in facts:
                     env = RB.refine_env(env, cond, truth, keyof)
@@ -353,14 +424,24 @@ def check_C18(ctx, unit, nbits):
                             # (`x.s.test(x.index)`), possibly held in a once-initialised local
                             import re as _re
                             ob = [g for g in unit.functions if g.owner_clsqn == f.owner_clsqn and g.name == "operator bool"]
-                            rv = ob[0].return_nodes()[0].child("val") if ob and len(ob[0].return_nodes()) == 1 else None
+                            from .ir import value_leaves
+                            rv = None
+                            if ob:
+                                lv_ = [y for r_ in ob[0].return_nodes() for y in value_leaves(ob[0], r_.child("val"))]
+                                rv = lv_[0] if len(lv_) == 1 else None     # (through a folded `value()` helper)
                             pn = f.params()[0]
                             val = RA.resolve_local(f, a[1])
+                            lv2 = value_leaves(f, val)          # (through parameters of folded helpers and their returns)
+                            if len(lv2) == 1:
+                                val = RA.resolve_local(f, lv2[0])
                             # (the spelled-out form must read the SOURCE reference only: a member of *this in it -- its own
                             # index, its own bitset -- would turn into the same text after the substitution below)
                             if rv is not None and not any(y.kind == "CXXThisExpr" for y in std_unwrap(val).walk()):
                                 want = canon(std_unwrap(rv))
-                                got = _re.sub(r"\b%s#%d\b" % (_re.escape(pn["n"]), pn["d"]), "this", canon(std_unwrap(val)))
+                                got = canon(std_unwrap(val))
+                                # (a member folded in on the source object has `this` rebound to `&x`)
+                                got = got.replace("(& %s#%d)" % (pn["n"], pn["d"]), "this")
+                                got = _re.sub(r"\b%s#%d\b" % (_re.escape(pn["n"]), pn["d"]), "this", got)
                                 conv = want == got
                         own = path(a[0]) == ("this", "index") if a else False
                         ok = conv and own
@@ -522,14 +603,33 @@ def check_concat(ctx, unit):
         ats = [p["d"] for p in ps if re.match(r"^(size_t|unsigned long)$", p["t"])]
         inits = RA.local_inits(f)
 
-        def base_leaf(x):
+        bm_ = f.bind_map()
+
+        def base_leaf(x, depth=0):
             x = std_unwrap(x)
             if x.kind == "DeclRefExpr":
                 d = x.d["d"]
+                if d in bm_ and depth < 6:
+                    # parameter of a folded helper (concat_copy(res, at, other)): what it is bound to
+                    pv = to_poly(f.node(bm_[d]), lambda y: base_leaf(y, depth + 1))
+                    if pv is not None:
+                        return pv
                 if d in inits and not RA._reassigned(f, d):
                     c = std_unwrap(inits[d]).cv()
+                    if c is None:
+                        c = inits[d].cv()               # (the constant may sit on the conversion around a variable template)
+                    if c is None and x.d.get("cv") is not None:
+                        c = x.cv()                      # (a constexpr local read as a constant)
                     if c is not None:
                         return Poly.const(c)
+                    if depth < 6:
+                        # `const size_t next = concat_copy(...)`: the value the folded helper returns
+                        from .ir import value_leaves
+                        lv = value_leaves(f, inits[d])
+                        if len(lv) == 1 and inits[d].strip().d.get("inlined"):
+                            pv = to_poly(lv[0], lambda y: base_leaf(y, depth + 1))
+                            if pv is not None:
+                                return pv
                 return Poly.sym("v%d" % d)
             return None
         from .poly import lockstep_env
